@@ -286,3 +286,47 @@ func tableCalls(x *Ctx, fns []*ssa.Function) {
 		}
 	}
 }
+
+// namedRefusals (C09.P3): when the evaluator answers "false" or "no data" it names the statement to blame.
+// invocation.verifyArgs renders that statement into the denial (statement.String()): an answer of false with a
+// nil statement - an accumulator that stays nil when a list is empty - is a nil-pointer panic on the denial path
+// instead of ErrPolicyNotSatisfied.
+func namedRefusals(x *Ctx) {
+	f := x.fn("C09.P3", "pkg/policy.matchStatement")
+	if f == nil {
+		return
+	}
+	vals := map[int64]string{}
+	for _, n := range []string{"matchResultFalse", "matchResultNoData"} {
+		if v, ok := x.constOf("C09.P3", "pkg/policy", n); ok {
+			if k, ok := constantInt(v); ok {
+				vals[k] = n
+			}
+		}
+	}
+	ps := x.paths("C09.P3", f)
+	n, bad := 0, ""
+	for _, p := range ps {
+		if p.End != paths.EndReturn || len(p.Results()) != 2 {
+			continue
+		}
+		r0 := p.Results()[0]
+		k, ok := paths.ConstInt(r0)
+		if !ok {
+			continue
+		}
+		name, isRefusal := vals[k]
+		if !isRefusal {
+			continue
+		}
+		n++
+		r1 := p.Results()[1]
+		if r1 == nil || r1.IsNil() {
+			bad += fmt.Sprintf("%s: answers %s without naming a statement\n", x.P.Pos(p.Ret.Pos()), name)
+		} else if r1.Op == "loopphi" && len(r1.Args) == 2 && (r1.Args[0] == nil || r1.Args[0].IsNil()) {
+			// a variable a loop fills: it still holds nil when the loop runs zero times (an empty list)
+			bad += fmt.Sprintf("%s: answers %s with a statement that is nil when the loop before it did not run\n", x.P.Pos(p.Ret.Pos()), name)
+		}
+	}
+	x.C.Obl("C09.P3", "named-refusal:matchStatement", x.pos(f), fmt.Sprintf("each of the %d exits answering false / no data names the statement to blame", n), bad == "" && n >= 10, dedupLines(bad))
+}
